@@ -145,7 +145,8 @@ class G:
         if '/' in s and r.random() < 0.03:
             # a blank next to the separator belongs to the component ('dairy /milk' is not 'dairy/milk')
             k = s.index('/') if r.random() < 0.5 else s.rindex('/')
-            if 0 < k < len(s) - 1:          # (a blank at either end of the whole name would be trimmed away by the reader)
+            if 0 < k < len(s) - 1 and s[k - 1] != '/' and s[k + 1] != '/':          # (a blank at either end of the whole name would be trimmed away by the reader;
+                # a component made of blanks only cannot be told from indentation in the printed tree)
                 s = s[:k] + r.choice([' /', '/ ', ' / ', '  /', '\u00a0/']) + s[k + 1:]
         b = s.encode('utf-8')
         return b
